@@ -4,6 +4,7 @@ import LcmProofs.FuncPerm
 import LcmProofs.EnvPerm
 import LcmProofs.SpecPerm
 import LcmProofs.ChoicePerm
+import LcmProofs.FuncOrder
 import LcmProps.C01
 namespace Lcm
 
@@ -166,14 +167,18 @@ theorem C10_last_period_entries_agree_unrestricted {m m' : Model} (h : PermOf m 
 /-! ## Every period: the order of the choices and of the functions
 
 `C10_choice_and_function_order_irrelevant`: two specifications that declare the same states in the same order, the same
-choices in any order and the same functions in any order (transition functions keeping their relative order) have
+choices in any order and the same functions in any order (stochastic and deterministic transition functions included) have
 **identical value arrays in every period** - although everything `solve` does with the choices differs: which group a
 choice belongs to is the same, but the order inside the groups, the stored rows of the state-choice space, the segment
 ids, the dense choice axes and the enumeration order of the continuous grids all change. Proof: both arrays are
 materialised tensors of the same shape (`solve_shape`, the state groups agree: `state_groups_eq`); every in-range entry
 is `specV` of the same named state (`C01_entry_eq_spec_*`, `feasOf_choicePerm`); `specV` is invariant
-(`specV_perm_of`) because the objectives agree (`uAndF_choicePerm`) once the continuation arrays agree - which is the
-induction hypothesis. -/
+(`specV_perm_of`) because the objectives agree (`uAndF_funcPerm`: conjunction order, lookup order, and - for the
+expectation - the node list of permuted transition rows is a rearrangement with the same product weights,
+`nodes_map_perm`) once the continuation arrays agree - which is the induction hypothesis. `NextKeysNodup`: the names
+`x` under which the values of the functions `next_x` are stored are pairwise distinct (true whenever the function names
+are: `next_x ↦ x` is injective on names with that prefix; kept as a hypothesis because `String` operations do not
+reduce in the kernel). -/
 
 theorem cond_choicePerm {m m' : Model} (h : ChoicePermOf m m') (hfn : (m.functions.map (·.name)).Nodup)
     (hnd : ((m.states ++ m.choices).map (·.1)).Nodup) :
@@ -193,6 +198,7 @@ theorem cond_choicePerm {m m' : Model} (h : ChoicePermOf m m') (hfn : (m.functio
 theorem period_choicePerm {m m' : Model} (h : ChoicePermOf m m')
     (hfn : (m.functions.map (·.name)).Nodup) (hnd : ((m.states ++ m.choices).map (·.1)).Nodup)
     (hnofilt : ((groups m).sS.isEmpty && (groups m).sC.isEmpty) = true → filterNames m = [])
+    (hk : NextKeysNodup m)
     (P : Params) (t : Nat) (ht : t < m.nPeriods)
     (hnext : nextOf m' P (solve m' P true) t = nextOf m P (solve m P true) t) :
     (solve m' P true).getD t default = (solve m P true).getD t default := by
@@ -211,7 +217,7 @@ theorem period_choicePerm {m m' : Model} (h : ChoicePermOf m m')
   rw [solve_shape m P t ht] at hidx
   have huF : ∀ e, uAndF m P (groups m) t (nextOf m P (solve m P true) t) e
       = uAndF m' P (groups m') t (nextOf m P (solve m P true) t) e :=
-    fun e => uAndF_choicePerm h hfn P t _ e
+    fun e => uAndF_funcPerm h hfn hk P t _ e
   by_cases hsp : (!((groups m).sS.isEmpty && (groups m).sC.isEmpty)) = true
   · -- arrays with a leading axis of feasible restricted-state combinations
     have hsp' : (!((groups m').sS.isEmpty && (groups m').sC.isEmpty)) = true := by rw [hcond]; exact hsp
@@ -273,15 +279,16 @@ theorem period_choicePerm {m m' : Model} (h : ChoicePermOf m m')
 theorem C10_choice_and_function_order_irrelevant {m m' : Model} (h : ChoicePermOf m m')
     (hfn : (m.functions.map (·.name)).Nodup) (hnd : ((m.states ++ m.choices).map (·.1)).Nodup)
     (hnofilt : ((groups m).sS.isEmpty && (groups m).sC.isEmpty) = true → filterNames m = [])
+    (hk : NextKeysNodup m)
     (P : Params) (j : Nat) (hj : j < m.nPeriods) :
     (solve m' P true).getD (m.nPeriods - 1 - j) default = (solve m P true).getD (m.nPeriods - 1 - j) default := by
   induction j with
   | zero =>
-    apply period_choicePerm h hfn hnd hnofilt P _ (by omega)
+    apply period_choicePerm h hfn hnd hnofilt hk P _ (by omega)
     rw [nextOf_last m P _ _ (by omega), nextOf_last m' P _ _ (by rw [h.periods]; omega)]
   | succ j ih =>
     have ihj := ih (by omega)
-    apply period_choicePerm h hfn hnd hnofilt P _ (by omega)
+    apply period_choicePerm h hfn hnd hnofilt hk P _ (by omega)
     have hsucc : m.nPeriods - 1 - (j + 1) + 1 = m.nPeriods - 1 - j := by omega
     unfold nextOf
     rw [h.periods, hsucc, ihj]
@@ -289,19 +296,47 @@ theorem C10_choice_and_function_order_irrelevant {m m' : Model} (h : ChoicePermO
       rw [mkSpace_feas, mkSpace_feas]; exact feasOf_choicePerm h hfn hnd P _
     rw [this]
 
-/-- the consumption example with its choices and its functions declared in the opposite order (one transition
-function, so the relative order of the transition functions is kept) -/
+/-- the consumption example with its choices and its functions declared in the opposite order -/
 def Ex.consModel' : Model :=
   { Ex.consModel with choices := Ex.consModel.choices.reverse, functions := Ex.consModel.functions.reverse }
 
 -- the hypotheses of `C10_choice_and_function_order_irrelevant` hold for this pair, and the arrays are identical
 example : Ex.consModel.choices.Perm Ex.consModel'.choices := (List.reverse_perm _).symm
 example : Ex.consModel.functions.Perm Ex.consModel'.functions := (List.reverse_perm _).symm
-#guard ((functionInfo Ex.consModel').filter (·.isNext)).map (·.name) == ((functionInfo Ex.consModel).filter (·.isNext)).map (·.name)
+#guard (((functionInfo Ex.consModel).filter (·.isNext)).map fun fi => stripNext fi.name) == ["w"]
 #guard (Ex.consModel.functions.map (·.name)).eraseDups.length == Ex.consModel.functions.length
 #guard filterNames Ex.consModel == []
 #guard ((solve Ex.consModel' Ex.consParams).map fun V => (V.shape, V.toFlat))
   == ((solve Ex.consModel Ex.consParams).map fun V => (V.shape, V.toFlat))
+
+/-- two stochastic states (`h` with 2 labels depending on `h`; `p` with 3 labels depending on `p` and the choice `d`),
+three periods -/
+def Ex.stochModel : Model :=
+  { nPeriods := 3
+    states := [("h", .disc 2), ("p", .disc 3)]
+    choices := [("d", .disc 2)]
+    functions := [
+      { name := "utility", args := ["h", "p", "d"],
+        body := .add (.add (.var "h") (.mul (.num 2) (.var "p"))) (.mul (.var "d") (.sub (.var "h") (.var "p"))) },
+      { name := "next_h", args := ["h"], body := .num 0, stochastic := true },
+      { name := "next_p", args := ["p", "d"], body := .num 0, stochastic := true } ] }
+
+def Ex.stochParams : Params :=
+  { beta := 3/4, funcs := []
+    shocks := [
+      ("h", { shape := [2, 2], get := fun idx => ([1/4, 3/4, 1/2, 1/2] : List Rat).getD (ravel [2, 2] idx) 0 }),
+      ("p", { shape := [3, 2, 3],
+              get := fun idx => ([1/2, 1/4, 1/4, 0, 1, 0, 1/8, 3/8, 1/2, 1/4, 1/4, 1/2, 1, 0, 0, 1/2, 0, 1/2] : List Rat).getD
+                (ravel [3, 2, 3] idx) 0 }) ] }
+
+/-- the same specification with the functions (both stochastic transitions among them) declared in the opposite order -/
+def Ex.stochModel' : Model := { Ex.stochModel with functions := Ex.stochModel.functions.reverse }
+
+example : Ex.stochModel.functions.Perm Ex.stochModel'.functions := (List.reverse_perm _).symm
+#guard (((functionInfo Ex.stochModel).filter (·.isNext)).map fun fi => (stripNext fi.name, fi.isStochasticNext)) == [("h", true), ("p", true)]
+#guard ((solve Ex.stochModel' Ex.stochParams).map fun V => (V.shape, V.toFlat))
+  == ((solve Ex.stochModel Ex.stochParams).map fun V => (V.shape, V.toFlat))
+#guard (((solve Ex.stochModel Ex.stochParams).getD 0 default).toFlat.all fun v => v != .ninf)
 
 /-- the F1 witness with its functions and (single) variables declared in another order -/
 def Ex.f1Model' : Model := { Ex.f1Model with functions := Ex.f1Model.functions.reverse }
